@@ -999,6 +999,9 @@ class SeqInterp:
                 return out
             if fn == "np.dot" and len(e.args) == 2:
                 return ("dot", norm(e.args[0]), self.ev(e.args[1]))
+            if fn in ("np.divmod", "divmod", "np.floor_divide") and len(e.args) == 2:
+                self.divisors.append(self.ev(e.args[1]))
+                raise self.Undecided("quotient of the (unknown) flat index")
         raise self.Undecided(f"unsupported expression `{t[:60]}`")
 
     def run(self, body):
@@ -1029,6 +1032,14 @@ class SeqInterp:
                     else:
                         seq[self.const_int(t.slice)] = self.ev(s.value)
                     self.env[t.value.id] = seq
+                elif isinstance(t, ast.Tuple) and not isinstance(s.value, ast.Tuple):
+                    try:
+                        self.ev(s.value)   # e.g. `i, rest = np.divmod(index, n)`: records the divisor
+                    except self.Undecided:
+                        pass
+                    for a in t.elts:
+                        if isinstance(a, ast.Name):
+                            self.env.pop(a.id, None)
                 elif isinstance(t, ast.Tuple) and isinstance(s.value, ast.Tuple) and len(t.elts) == len(s.value.elts):
                     for a, b in zip(t.elts, s.value.elts):
                         if isinstance(a, ast.Name):
